@@ -1,6 +1,185 @@
-From Coq Require Import ZArith List Bool Lia.
+(* C15 proofs, top level: the records of deduplicate_majority. *)
+From Coq Require Import ZArith List Bool Lia QArith.
 Import ListNotations.
-From SCMO Require Import Lib.Val Lib.PyInt Lib.PyIntFacts Model.C15.
+From SCMO Require Import Lib.Val Lib.PyInt Lib.PyIntFacts Model.C15 Proofs.C15_a Proofs.C15_b Proofs.C15_c.
 Open Scope Z_scope.
-Lemma placeholder : runs [1;2;3;7;8] = [(1,3);(7,8)].
-Proof. reflexivity. Qed.
+
+Definition rec_positions (r : crec) : list Z := expand (c_start r) (c_cigar r).
+Definition covered (reads : list read) : list Z := sort_uniq (map o_pos (all_obs reads)).
+
+Lemma flat_map_map {A B C} (f : B -> list C) (g : A -> B) l :
+  flat_map f (map g l) = flat_map (fun x => f (g x)) l.
+Proof. induction l as [|a l IH]; cbn; [reflexivity|]. now rewrite IH. Qed.
+
+Lemma inc_head_least x l : inc (x :: l) -> forall y, In y (x :: l) -> x - 2 + 1 < y.
+Proof.
+  intros H y Hy. apply inc_cons in H. destruct H as [H _].
+  destruct Hy as [<-|Hy]; [lia|]. specialize (H y Hy). lia.
+Qed.
+
+(* everything the later theorems need about one run of deduplicate_majority *)
+Lemma consensus_inv caller ref maxN m reads recs :
+  consensus caller ref maxN m reads = Some recs ->
+  exists s ps,
+    covered reads <> [] /\
+    recs = map (record_of ref m) ps /\
+    Forall (rec_ok (call_at caller (all_obs reads)) maxN) ps /\
+    pcat ps = covered reads /\
+    length ps = S (n_long maxN (cigar_of_runs (runs (covered reads)))) /\
+    alignment_start (runs (covered reads)) = Some s.
+Proof.
+  unfold consensus. fold (covered reads). intros H.
+  pose proof (sort_uniq_inc (map o_pos (all_obs reads))) as Hinc. fold (covered reads) in Hinc.
+  pose proof (runs_expand (covered reads)) as Hexp.
+  destruct (covered reads) as [|x0 cov] eqn:Ecov; [discriminate H|].
+  pose proof (runs_ok_inc (x0 :: cov) Hinc (x0 - 2) (inc_head_least x0 cov Hinc)) as Hok.
+  destruct (runs (x0 :: cov)) as [|[s e] t] eqn:Er.
+  - cbn in Hexp. discriminate Hexp.
+  - rewrite (alignment_start_first s e t (x0 - 2) Hok) in H. injection H as <-.
+    assert (Hcig : okM None (cigar_of_runs ((s, e) :: t))).
+    { apply (cigar_of_runs_ok (x0 - 2)); [discriminate|assumption]. }
+    destruct (partial_reads_spec (call_at caller (all_obs reads)) maxN _ s Hcig) as (P1 & P2 & P3).
+    cbn zeta in *. exists s, (partial_reads (call_at caller (all_obs reads)) maxN (cigar_of_runs ((s, e) :: t)) s).
+    repeat split; try assumption; try discriminate.
+    + rewrite P2, cigar_of_runs_expand. exact Hexp.
+    + now rewrite (alignment_start_first s e t (x0 - 2) Hok).
+Qed.
+
+Lemma consensus_none caller ref maxN m reads :
+  consensus caller ref maxN m reads = None <-> all_obs reads = [].
+Proof.
+  unfold consensus. fold (covered reads). split.
+  - intros H. destruct (covered reads) as [|x0 cov] eqn:Ecov.
+    + apply sort_uniq_nil in Ecov. now apply map_eq_nil in Ecov.
+    + exfalso.
+      pose proof (sort_uniq_inc (map o_pos (all_obs reads))) as Hinc. fold (covered reads) in Hinc.
+      rewrite Ecov in Hinc.
+      pose proof (runs_ok_inc (x0 :: cov) Hinc (x0 - 2) (inc_head_least x0 cov Hinc)) as Hok.
+      pose proof (runs_expand (x0 :: cov)) as Hexp.
+      destruct (runs (x0 :: cov)) as [|[s e] t]; [discriminate Hexp|].
+      rewrite (alignment_start_first s e t (x0 - 2) Hok) in H. discriminate H.
+  - intros H. unfold covered. rewrite H. reflexivity.
+Qed.
+
+(* ---- C15_blocks_exact *)
+Lemma blocks_exact caller ref maxN m reads recs :
+  consensus caller ref maxN m reads = Some recs ->
+  flat_map rec_positions recs = covered reads /\
+  inc (covered reads) /\
+  (forall p, In p (covered reads) <-> exists o, In o (all_obs reads) /\ o_pos o = p) /\
+  Forall (fun r => okM maxN (c_cigar r)) recs /\
+  length recs = S (n_long maxN (cigar_of_runs (runs (covered reads)))).
+Proof.
+  intros H. destruct (consensus_inv _ _ _ _ _ _ H) as (s & ps & Hne & -> & Hok & Hcat & Hlen & _).
+  repeat split.
+  - rewrite flat_map_map. exact Hcat.
+  - apply sort_uniq_inc.
+  - unfold covered. rewrite sort_uniq_In, in_map_iff. intros (o & Ho & Hin). exists o. auto.
+  - intros (o & Hin & Ho). unfold covered. rewrite sort_uniq_In, in_map_iff. exists o. auto.
+  - apply Forall_map. eapply Forall_impl; [|exact Hok]. intros p (Hc & _). exact Hc.
+  - now rewrite map_length.
+Qed.
+
+(* ---- C15_lengths and the sequence as calls *)
+Lemma record_seq caller ref maxN m reads recs r :
+  consensus caller ref maxN m reads = Some recs -> In r recs ->
+  c_seq r = map (call_at caller (all_obs reads)) (rec_positions r) /\
+  Z.of_nat (length (c_seq r)) = query_len (c_cigar r) /\
+  length (c_seq r) = length (rec_positions r).
+Proof.
+  intros H Hr. destruct (consensus_inv _ _ _ _ _ _ H) as (s & ps & Hne & -> & Hok & _).
+  apply in_map_iff in Hr. destruct Hr as (p & <- & Hp).
+  rewrite Forall_forall in Hok. destruct (Hok p Hp) as (Hc & Hs & Hm & He).
+  unfold rec_positions, record_of. cbn [c_seq c_start c_cigar]. fold (pexpand p).
+  split; [exact Hs|]. rewrite Hs, map_length. split; [|reflexivity].
+  apply expand_length. eapply okM_M_pos. exact Hc.
+Qed.
+
+(* ---- C15_md *)
+Lemma record_md caller ref maxN m reads recs r :
+  consensus caller ref maxN m reads = Some recs -> In r recs ->
+  (forall p, is_digit (ref p) = false) ->
+  md_decode (c_md r) (c_seq r) = Some (map (fun p => upper (ref p)) (rec_positions r)).
+Proof.
+  intros H Hr Href. destruct (consensus_inv _ _ _ _ _ _ H) as (s & ps & Hne & -> & Hok & _).
+  apply in_map_iff in Hr. destruct Hr as (p & <- & Hp).
+  rewrite Forall_forall in Hok. destruct (Hok p Hp) as (Hc & Hs & Hm & He).
+  unfold rec_positions, record_of. cbn [c_seq c_start c_cigar c_md]. fold (pexpand p).
+  rewrite Hm, md_roundtrip.
+  - now rewrite map_map.
+  - rewrite Hs. now rewrite !map_length.
+  - apply Forall_forall. intros c Hc'. apply in_map_iff in Hc'. destruct Hc' as (q & <- & _). apply Href.
+Qed.
+
+(* ---- C15_tags *)
+Lemma record_tags caller ref maxN m reads recs r :
+  consensus caller ref maxN m reads = Some recs -> In r recs ->
+  c_SM r = m_sample m /\ c_RX r = m_umi m /\ c_DS r = m_site m /\
+  c_TF r = m_fragments m + m_overflow m /\
+  c_reverse r = match m_strand m with Some b => b | None => false end /\
+  (forall u, m_umi m = Some u -> c_BC r = Some (m_bc m) /\ c_MI r = Some (m_bc m ++ u)).
+Proof.
+  intros H Hr. destruct (consensus_inv _ _ _ _ _ _ H) as (s & ps & Hne & -> & _).
+  apply in_map_iff in Hr. destruct Hr as (p & <- & Hp).
+  unfold record_of. cbn [c_SM c_RX c_DS c_TF c_reverse c_BC c_MI]. repeat split; try reflexivity.
+  all: rewrite H0; reflexivity.
+Qed.
+
+(* ---- the record start is the first covered position of the record; records are in order *)
+Lemma okM_expand_head maxN : forall c pos, okM maxN c -> exists t, expand pos c = pos :: t.
+Proof.
+  intros c pos H. destruct c as [|[n|n] c']; cbn in H; try contradiction. destruct H as [Hn _].
+  cbn [expand]. rewrite (zrange_cons pos (pos + n)) by lia. cbn [app]. eauto.
+Qed.
+
+Lemma record_start caller ref maxN m reads recs r :
+  consensus caller ref maxN m reads = Some recs -> In r recs ->
+  exists t, rec_positions r = c_start r :: t.
+Proof.
+  intros H Hr. destruct (blocks_exact _ _ _ _ _ _ H) as (_ & _ & _ & Hok & _).
+  rewrite Forall_forall in Hok. apply (okM_expand_head maxN). apply Hok. assumption.
+Qed.
+
+(* ---- the model that the correspondence check runs (call_fast) is the model of the theorems *)
+Lemma pc_of_range tab : valid_tab tab = true -> forall q, (0 <= pc_of tab q /\ pc_of tab q < 1)%Q.
+Proof.
+  intros Hv q. unfold pc_of. destruct (q <? 0); [split; [apply Qle_refl|reflexivity]|].
+  unfold valid_tab in Hv. rewrite forallb_forall in Hv.
+  destruct (nth_in_or_default (Z.to_nat q) tab 0) as [Hin|Hd].
+  - specialize (Hv _ Hin). apply andb_true_iff in Hv. destruct Hv as [H1 H2].
+    apply Z.leb_le in H1. apply Z.ltb_lt in H2. unfold Qle, Qlt. cbn [Qnum Qden]. lia.
+  - rewrite Hd. unfold Qle, Qlt. cbn [Qnum Qden]. lia.
+Qed.
+
+Lemma call_at_ext f g all p : (forall os, f os = g os) -> call_at f all p = call_at g all p.
+Proof. intros H. unfold call_at. destruct (obs_at all p); [reflexivity|apply H]. Qed.
+
+Lemma step_ext f g maxN st o : (forall p, f p = g p) -> step f maxN st o = step g maxN st o.
+Proof.
+  intros H. destruct o as [a|a]; cbn [step]; [|reflexivity].
+  f_equal. f_equal. apply map_ext. intros p. apply H.
+Qed.
+
+Lemma partial_reads_ext f g maxN c s : (forall p, f p = g p) ->
+  partial_reads f maxN c s = partial_reads g maxN c s.
+Proof.
+  intros H. unfold partial_reads.
+  assert (G : forall st, fold_left (step f maxN) c st = fold_left (step g maxN) c st).
+  { induction c as [|o c IH]; intros st; cbn [fold_left]; [reflexivity|].
+    rewrite (step_ext f g maxN st o H). apply IH. }
+  now rewrite G.
+Qed.
+
+Lemma consensus_ext f g ref maxN m reads : (forall os, f os = g os) ->
+  consensus f ref maxN m reads = consensus g ref maxN m reads.
+Proof.
+  intros H. unfold consensus. destruct (alignment_start _); [|reflexivity].
+  f_equal. f_equal. apply partial_reads_ext. intros p. now apply call_at_ext.
+Qed.
+
+Lemma run_model_is_call tab ref maxN m reads : valid_tab tab = true ->
+  consensus (fun os => fst (call_fast (pc_of tab) os)) ref maxN m reads =
+  consensus (fun os => fst (call (pc_of tab) os)) ref maxN m reads.
+Proof.
+  intros Hv. apply consensus_ext. intros os. apply call_fast_correct. now apply pc_of_range.
+Qed.
